@@ -56,10 +56,29 @@ theorem customLeaves_of {E : Env} {P : State → Prop} (h : ∀ f, CustomOnly f 
   ⟨fun _ => h _ (fun _ => ⟨rfl, rfl, rfl, rfl, rfl, rfl, rfl, rfl, rfl, rfl, rfl, rfl⟩),
    fun _ _ _ => h _ (fun _ => ⟨rfl, rfl, rfl, rfl, rfl, rfl, rfl, rfl, rfl, rfl, rfl, rfl⟩)⟩
 
+/-- `handle_apply_summary` from its one state-changing leaf -/
+theorem handleApplySummary_pres {E : Env} {P : State → Prop} {u : Member} (hadd : Pres P (addUpdate E u))
+    (sm : Summary) (b : Bool) : Pres P (handleApplySummary E sm u b) := by
+  unfold Foca.handleApplySummary
+  pres
+  all_goals first | exact hadd | skip
+
+/-- the unit `apply_existing_if` + report from its leaves -/
+theorem applyExistingReport_pres {E : Env} {P : State → Prop} {u : Member} {cond : Member → Bool}
+    (h1 : Pres P (membersApplyExistingIf u cond)) (hadd : Pres P (addUpdate E u)) :
+    Pres P (applyExistingReport E u cond) := by
+  unfold Foca.applyExistingReport
+  refine Pres.bind h1 (fun r => ?_)
+  split
+  · exact Pres.bind (handleApplySummary_pres hadd _ _) (fun _ => Pres.pure _)
+  · exact Pres.pure _
+
 /-- leaf obligations, identity/incarnation writers excluded. `okU u`: the update `u` may be stored (a pure
     side condition; `fun _ => True` for invariants that accept every update). -/
 structure Base (E : Env) (P : State → Prop) (okU : Member → Prop) : Prop where
-  okDown : ∀ id inc, okU ⟨id, inc, .down⟩
+  /-- the Down-at-incarnation-0 updates the instance makes up itself (its previous identity, other identities of
+      its own address) -/
+  okDown0 : ∀ id, okU ⟨id, 0, .down⟩
   membersApply : ∀ u, okU u → Pres P (membersApply u)
   membersApplyExistingIf : ∀ u cond, okU u → Pres P (membersApplyExistingIf u cond)
   /-- the member `next` returns may become the probe target -/
@@ -67,7 +86,7 @@ structure Base (E : Env) (P : State → Prop) (okU : Member → Prop) : Prop whe
   startProbe : ∀ m, okU ⟨m.id, m.inc, .suspect⟩ → Pres P (modS fun s => { s with probe := s.probe.start m })
   removeDown : ∀ id, Pres P (modS fun s => { s with ms := removeIfDown s.ms id })
   sendMessage : ∀ d m, Pres P (sendMessage E d m)
-  addUpdate : ∀ m, Pres P (addUpdate E m)
+  addUpdate : ∀ m, okU m → Pres P (addUpdate E m)
   modCtl : ∀ f, CtlKeep f → Pres P (modS f)
   /-- handler state only -/
   setHst : ∀ h', Pres P (modS fun s => { s with hst := h' })
@@ -141,24 +160,19 @@ theorem Base.adjustConnectionState : Pres P (Foca.adjustConnectionState E) := by
   · exact B.becomeConnected
   · exact B.becomeDisconnected
 
-theorem Base.handleApplySummary (sm : Summary) (u : Member) (b : Bool) : Pres P (Foca.handleApplySummary E sm u b) := by
-  unfold Foca.handleApplySummary
-  pres
-  all_goals first | exact B.addUpdate _ | skip
+theorem Base.handleApplySummary (sm : Summary) (u : Member) (b : Bool) (hu : okU u) :
+    Pres P (Foca.handleApplySummary E sm u b) :=
+  handleApplySummary_pres (B.addUpdate u hu) sm b
 
 theorem Base.applyUpdate (u : Member) (b : Bool) (hu : okU u) : Pres P (Foca.applyUpdate E u b) := by
   unfold Foca.applyUpdate
   pres
   · exact B.membersApply u hu
-  · exact B.handleApplySummary _ _ _
+  · exact B.handleApplySummary _ _ _ hu
 
 theorem Base.applyExistingReport (u : Member) (cond : Member → Bool) (hu : okU u) :
-    Pres P (Foca.applyExistingReport E u cond) := by
-  unfold Foca.applyExistingReport
-  refine Pres.bind (B.membersApplyExistingIf u cond hu) (fun r => ?_)
-  split
-  · exact Pres.bind (B.handleApplySummary _ _ _) (fun _ => Pres.pure _)
-  · exact Pres.pure _
+    Pres P (Foca.applyExistingReport E u cond) :=
+  applyExistingReport_pres (B.membersApplyExistingIf u cond hu) (B.addUpdate u hu)
 
 theorem Base.broadcastLoop (ds : List Id) : Pres P (Foca.broadcastLoop E ds) := by
   induction ds with
@@ -178,7 +192,7 @@ theorem Base.broadcastApi : Pres P (Foca.broadcastApi E) := by
 theorem Base.leaveCluster : Pres P (Foca.leaveCluster E) := by
   unfold Foca.leaveCluster
   pres
-  · exact B.addUpdate _
+  · exact B.addUpdate _ (B.okDown0 _)
   · exact B.gossip
   · exact B.becomeUndead
 
@@ -221,17 +235,72 @@ theorem Base.handleCustomBroadcasts (data : Bytes) (sender : Option Id) :
 
 end
 
-/-- `Base` plus `handle_self_update` and the three places where an update is built from the state that was
-    read: the sender of a datagram, an update about another address, the failed probe target -/
-structure Full (E : Env) (P : State → Prop) (okU : Member → Prop) : Prop extends Base E P okU where
-  handleSelfUpdate : ∀ inc st, Pres P (handleSelfUpdate E inc st)
-  senderOk : ∀ (s0 : State) (h : Header), P s0 → (h.src == s0.id || h.src.addr == s0.id.addr) = false →
-    okU ⟨h.src, h.srcInc, .alive⟩
-  applyOk : ∀ (s0 : State) (u : Member), P s0 → (u.id == s0.id) = false → (s0.id.addr == u.id.addr) = false → okU u
-  failedOk : ∀ (s0 : State) (m : Member), P s0 → s0.probe.takeFailed.1 = some m → okU ⟨m.id, m.inc, .suspect⟩
+/-- `f` leaves membership, counters and both backlogs alone and does not give the probe a new target (it may
+    write identity, incarnation, policy, connection state, token, configuration) -/
+def IdCtl (f : State → State) : Prop :=
+  ∀ s, (f s).ms = s.ms ∧ (f s).numActive = s.numActive ∧ (f s).updates = s.updates ∧
+    (f s).custom = s.custom ∧ (f s).cursor = s.cursor ∧ ProbeKeep s.probe (f s).probe
 
 section
-variable {E : Env} {P : State → Prop} {okU : Member → Prop} (F : Full E P okU)
+variable {E : Env} {P : State → Prop} {okU : Member → Prop} (B : Base E P okU)
+  (modId : ∀ f, IdCtl f → Pres P (modS f))
+include B modId
+
+/-! the identity / incarnation writers, for an invariant that does not look at identity or incarnation -/
+
+theorem Base.reset_of : Pres P Foca.reset := by
+  unfold Foca.reset
+  exact modId _ (fun s => ⟨rfl, rfl, rfl, rfl, rfl, Or.inr rfl⟩)
+
+theorem Base.changeIdentity_of (i : Id) (p : Policy) : Pres P (Foca.changeIdentity E i p) := by
+  unfold Foca.changeIdentity
+  pres
+  all_goals first
+    | exact modId _ (fun s => ⟨rfl, rfl, rfl, rfl, rfl, Or.inl rfl⟩)
+    | exact B.reset_of modId
+    | exact B.addUpdate _ (B.okDown0 _)
+    | exact B.gossip
+
+theorem Base.attemptRejoin_of : Pres P (Foca.attemptRejoin E) := by
+  unfold Foca.attemptRejoin
+  pres
+  exact B.changeIdentity_of modId _ _
+
+theorem Base.handleSelfUpdate_of (inc : Nat) (st : St) : Pres P (Foca.handleSelfUpdate E inc st) := by
+  unfold Foca.handleSelfUpdate
+  pres
+  all_goals first
+    | exact B.attemptRejoin_of modId
+    | exact B.becomeUndead
+    | exact B.gossip
+    | exact modId _ (fun s => ⟨rfl, rfl, rfl, rfl, rfl, Or.inl rfl⟩)
+
+theorem Base.reuseDownIdentity_of : Pres P Foca.reuseDownIdentity := by
+  unfold Foca.reuseDownIdentity
+  pres
+  exact B.reset_of modId
+
+end
+
+/-- `Base` plus `handle_self_update` and the three places where an update is built from the state that was
+    read together with the call's input: the sender of a datagram, an update about another address, the failed
+    probe target. `okIn` / `okH`: what is known about the members / the header of the call's input. -/
+structure Full (E : Env) (P : State → Prop) (okU okIn : Member → Prop) (okH : Header → Prop) : Prop
+    extends Base E P okU where
+  handleSelfUpdate : ∀ inc st, Pres P (handleSelfUpdate E inc st)
+  senderOk : ∀ (s0 : State) (h : Header), okH h → P s0 → (h.src == s0.id || h.src.addr == s0.id.addr) = false →
+    okU ⟨h.src, h.srcInc, .alive⟩
+  applyOk : ∀ (s0 : State) (u : Member), okIn u → P s0 → (u.id == s0.id) = false →
+    (s0.id.addr == u.id.addr) = false → okU u
+  failedOk : ∀ (s0 : State) (m : Member), P s0 → s0.probe.takeFailed.1 = some m → okU ⟨m.id, m.inc, .suspect⟩
+
+/-- what a call's datagram must satisfy: its header and every member of its member section are acceptable -/
+def DataOk (E : Env) (okIn : Member → Prop) (okH : Header → Prop) (data : Bytes) : Prop :=
+  ∀ h rest, E.codec.decHeader data = some (h, rest) →
+    okH h ∧ ∀ us tail, parseSection E h rest = some (us, tail) → ∀ u ∈ us, okIn u
+
+section
+variable {E : Env} {P : State → Prop} {okU okIn : Member → Prop} {okH : Header → Prop} (F : Full E P okU okIn okH)
 include F
 
 theorem Full.probeSuspectFailed : Pres P (Foca.probeSuspectFailed E) := by
@@ -268,7 +337,9 @@ theorem Full.probeRandomMember : Pres P (Foca.probeRandomMember E) := by
     | exact F.probeSuspectFailed
     | exact F.probeStartNext
 
-theorem Full.handleTimer (t : Timer) : Pres P (Foca.handleTimer E t) := by
+/-- `handle_timer`; the one update built from the timer itself (the suspicion timeout) must be storable -/
+theorem Full.handleTimer (t : Timer) (ht : ∀ m inc tok, t = .s2d m inc tok → okU ⟨m, inc, .down⟩) :
+    Pres P (Foca.handleTimer E t) := by
   unfold Foca.handleTimer
   pres
   all_goals first
@@ -276,7 +347,7 @@ theorem Full.handleTimer (t : Timer) : Pres P (Foca.handleTimer E t) := by
     | exact F.removeDown _
     | exact F.toBase.chooseLoop _ _ _ _ _
     | exact F.toBase.pingReqLoop _ _
-    | exact F.toBase.applyExistingReport _ _ (F.okDown _ _)
+    | exact F.toBase.applyExistingReport _ _ (ht _ _ _ rfl)
     | exact F.toBase.handleApplySummary _ _ _
     | exact F.toBase.adjustConnectionState
     | exact F.sendMessage _ _
@@ -284,28 +355,28 @@ theorem Full.handleTimer (t : Timer) : Pres P (Foca.handleTimer E t) := by
     | exact F.toBase.chooseAndSend _ _
     | exact F.toBase.announceToDown _
 
-theorem Full.applyOne (u : Member) (b : Bool) : Pres P (Foca.applyOne E u b) := by
+theorem Full.applyOne (u : Member) (b : Bool) (hu : okIn u) : Pres P (Foca.applyOne E u b) := by
   unfold Foca.applyOne
   refine Pres.getS_with (fun s hs => ?_)
   split
   · exact F.handleSelfUpdate _ _
   · rename_i h1
     split
-    · exact Pres.bind (F.toBase.applyUpdate _ _ (F.okDown _ _)) (fun _ => Pres.pure _)
+    · exact Pres.bind (F.toBase.applyUpdate _ _ (F.okDown0 _)) (fun _ => Pres.pure _)
     · rename_i h2
-      exact Pres.bind (F.toBase.applyUpdate _ _ (F.applyOk s u hs (by simpa using h1) (by simpa using h2))) (fun _ => Pres.pure _)
+      exact Pres.bind (F.toBase.applyUpdate _ _ (F.applyOk s u hu hs (by simpa using h1) (by simpa using h2))) (fun _ => Pres.pure _)
 
-theorem Full.applyLoop (b : Bool) (us : List Member) : Pres P (Foca.applyLoop E b us) := by
+theorem Full.applyLoop (b : Bool) (us : List Member) (hus : ∀ u ∈ us, okIn u) : Pres P (Foca.applyLoop E b us) := by
   induction us with
   | nil => unfold Foca.applyLoop; exact Pres.pure _
   | cons u rest ih =>
     unfold Foca.applyLoop
-    exact Pres.bind (F.applyOne u b) (fun _ => ih)
+    exact Pres.bind (F.applyOne u b (hus u (by simp))) (fun _ => ih (fun x hx => hus x (by simp [hx])))
 
-theorem Full.applyMany (us : List Member) (b : Bool) : Pres P (Foca.applyMany E us b) := by
+theorem Full.applyMany (us : List Member) (b : Bool) (hus : ∀ u ∈ us, okIn u) : Pres P (Foca.applyMany E us b) := by
   unfold Foca.applyMany
   pres
-  · exact F.applyLoop _ _
+  · exact F.applyLoop _ _ hus
   · exact F.toBase.adjustConnectionState
 
 theorem Full.reactToMessage (h : Header) : Pres P (Foca.reactToMessage E h) := by
@@ -330,14 +401,14 @@ theorem Full.replyStage (h : Header) (cres : Option ErrKind) : Pres P (Foca.repl
   pres
   exact F.reactToMessage _
 
-theorem Full.handleData (data : Bytes) : Pres P (Foca.handleData E data) := by
+theorem Full.handleData (data : Bytes) (hdat : DataOk E okIn okH data) : Pres P (Foca.handleData E data) := by
   unfold Foca.handleData
   refine Pres.getS_with (fun s hs => ?_)
   split
   · exact Pres.throwE _
   · split
     · exact Pres.throwE _
-    · rename_i h rest _
+    · rename_i h rest hdec
       split
       · exact Pres.throwE _
       · rename_i hsrc
@@ -348,23 +419,28 @@ theorem Full.handleData (data : Bytes) : Pres P (Foca.handleData E data) := by
           · exact Pres.pure _
           · split
             · exact Pres.throwE _
-            · refine Pres.bind (F.toBase.applyUpdate _ _ (F.senderOk s h hs (by simpa using hsrc))) (fun senderActive => ?_)
+            · rename_i updates tail hparse
+              obtain ⟨hh, hmem⟩ := hdat h rest hdec
+              refine Pres.bind (F.toBase.applyUpdate _ _ (F.senderOk s h hh hs (by simpa using hsrc))) (fun senderActive => ?_)
               split
               · exact F.inactiveSender _
-              · exact Pres.bind (F.applyMany _ _) (fun _ =>
+              · exact Pres.bind (F.applyMany _ _ (hmem updates tail hparse)) (fun _ =>
                   Pres.bind (Pres.attempt (F.toBase.handleCustomBroadcasts _ _)) (fun _ => F.replyStage _ _))
 
-/-- every public call; the two identity-changing calls are hypotheses -/
+/-- every public call; the two identity-changing calls and what is known about the input are hypotheses -/
 theorem Full.runOp (op : Op)
     (hchid : ∀ i p, op = .changeIdentity i p → Pres P (Foca.changeIdentity E i p))
-    (hreuse : op = .reuseDown → Pres P Foca.reuseDownIdentity) : Pres P (Foca.runOp E op) := by
+    (hreuse : op = .reuseDown → Pres P Foca.reuseDownIdentity)
+    (hT : ∀ m inc tok, op = .timer (.s2d m inc tok) → okU ⟨m, inc, .down⟩)
+    (hA : ∀ us b, op = .applyMany us b → ∀ u ∈ us, okIn u)
+    (hD : ∀ data, op = .data data → DataOk E okIn okH data) : Pres P (Foca.runOp E op) := by
   cases op <;> unfold Foca.runOp <;> pres
   all_goals first
     | exact hchid _ _ rfl
     | exact hreuse rfl
-    | exact F.applyMany _ _
-    | exact F.handleData _
-    | exact F.handleTimer _
+    | exact F.handleTimer _ (fun m inc tok h => hT m inc tok (by rw [h]))
+    | exact F.applyMany _ _ (hA _ _ rfl)
+    | exact F.handleData _ (hD _ rfl)
     | exact F.sendMessage _ _
     | exact F.toBase.gossip
     | exact F.toBase.broadcastApi
@@ -394,7 +470,7 @@ variable {E : Env} {P : State → Prop} (L : Leaves E P)
 include L
 
 theorem Leaves.base : Base E P (fun _ => True) where
-  okDown := fun _ _ => trivial
+  okDown0 := fun _ => trivial
   membersApply := fun u _ => L.membersApply u
   membersApplyExistingIf := fun u cond _ => L.membersApplyExistingIf u cond
   membersNext := ⟨fun c hc => by
@@ -406,7 +482,7 @@ theorem Leaves.base : Base E P (fun _ => True) where
   startProbe := fun m _ => L.modCtl _ (fun s => ⟨rfl, rfl, rfl, rfl, rfl⟩)
   removeDown := L.removeDown
   sendMessage := L.sendMessage
-  addUpdate := L.addUpdate
+  addUpdate := fun m _ => L.addUpdate m
   modCtl := fun f h => L.modCtl f (fun s => ⟨(h s).1, (h s).2.1, (h s).2.2.1, (h s).2.2.2.1, (h s).2.2.2.2.1⟩)
   setHst := L.setHst
   addCustom := L.addCustom
@@ -416,47 +492,26 @@ theorem Leaves.ctl (f : State → State)
       (f s).custom = s.custom ∧ (f s).cursor = s.cursor := by intro s; exact ⟨rfl, rfl, rfl, rfl, rfl⟩) :
     Pres P (modS f) := L.modCtl f h
 
-theorem Leaves.reset : Pres P Foca.reset := by
-  unfold Foca.reset
-  exact L.ctl _
+theorem Leaves.modId (f : State → State) (h : IdCtl f) : Pres P (modS f) :=
+  L.modCtl f (fun s => ⟨(h s).1, (h s).2.1, (h s).2.2.1, (h s).2.2.2.1, (h s).2.2.2.2.1⟩)
 
-theorem Leaves.changeIdentity (i : Id) (p : Policy) : Pres P (Foca.changeIdentity E i p) := by
-  unfold Foca.changeIdentity
-  pres
-  all_goals first
-    | exact L.ctl _
-    | exact L.reset
-    | exact L.base.addUpdate _
-    | exact L.base.gossip
+theorem Leaves.reset : Pres P Foca.reset := L.base.reset_of L.modId
+theorem Leaves.changeIdentity (i : Id) (p : Policy) : Pres P (Foca.changeIdentity E i p) := L.base.changeIdentity_of L.modId i p
+theorem Leaves.attemptRejoin : Pres P (Foca.attemptRejoin E) := L.base.attemptRejoin_of L.modId
+theorem Leaves.handleSelfUpdate (inc : Nat) (st : St) : Pres P (Foca.handleSelfUpdate E inc st) :=
+  L.base.handleSelfUpdate_of L.modId inc st
+theorem Leaves.reuseDownIdentity : Pres P Foca.reuseDownIdentity := L.base.reuseDownIdentity_of L.modId
 
-theorem Leaves.attemptRejoin : Pres P (Foca.attemptRejoin E) := by
-  unfold Foca.attemptRejoin
-  pres
-  exact L.changeIdentity _ _
-
-theorem Leaves.handleSelfUpdate (inc : Nat) (st : St) : Pres P (Foca.handleSelfUpdate E inc st) := by
-  unfold Foca.handleSelfUpdate
-  pres
-  all_goals first
-    | exact L.attemptRejoin
-    | exact L.base.becomeUndead
-    | exact L.base.gossip
-    | exact L.ctl _
-
-theorem Leaves.reuseDownIdentity : Pres P Foca.reuseDownIdentity := by
-  unfold Foca.reuseDownIdentity
-  pres
-  exact L.reset
-
-theorem Leaves.full : Full E P (fun _ => True) where
+theorem Leaves.full : Full E P (fun _ => True) (fun _ => True) (fun _ => True) where
   toBase := L.base
   handleSelfUpdate := L.handleSelfUpdate
-  senderOk := fun _ _ _ _ => trivial
-  applyOk := fun _ _ _ _ _ => trivial
+  senderOk := fun _ _ _ _ _ => trivial
+  applyOk := fun _ _ _ _ _ _ => trivial
   failedOk := fun _ _ _ _ => trivial
 
 theorem Leaves.runOp (op : Op) : Pres P (Foca.runOp E op) :=
-  L.full.runOp op (fun _ _ _ => L.changeIdentity _ _) (fun _ => L.reuseDownIdentity)
+  L.full.runOp op (fun _ _ _ => L.changeIdentity _ _) (fun _ => L.reuseDownIdentity) (fun _ _ _ _ => trivial)
+    (fun _ _ _ _ _ => trivial) (fun _ _ _ _ _ => ⟨trivial, fun _ _ _ _ _ => trivial⟩)
 
 /-- One public call keeps the invariant, whatever the input and the oracle. -/
 theorem Leaves.step (s : State) (op : Op) (orc : Oracle) (h : P s) :
